@@ -9,6 +9,9 @@ from .kinds import Mono, num
 from .source import norm_text
 
 TRAJ = 'gemdat.trajectory.Trajectory'
+# physical meaning of conventional parameter names (documented in the package docstrings)
+PARAM_UNITS = {'temperature': {'K': 1}, 'resolution': {'ang': 1}, 'max_dist': {'ang': 1}, 'radius': {'ang': 1}}
+PARAM_DEG = {'resolution': (1, 0, 0), 'max_dist': (1, 0, 0), 'radius': (1, 0, 0), 'z_ion': (0, 0, 1)}
 
 
 def deps_union(*avs):
@@ -124,7 +127,7 @@ class ModelBase:
             if last in ('int', 'float', 'str', 'bool'):
                 a = AV(ty=last)
                 if name and last in ('int', 'float'):
-                    a = a.w(mono=Mono.atom(f'param:{name}'))
+                    a = a.w(mono=Mono.atom(f'param:{name}', PARAM_DEG.get(name, (0, 0, 0)), PARAM_UNITS.get(name)))
                 return a
             if last in ('dict', 'list', 'tuple', 'set'):
                 return AV(ty=last)
@@ -371,6 +374,8 @@ class ModelBase:
             name = 'n_sites'
         elif a.ty == 'ndarray' and a.axes:
             name = f'n_{a.axes[0]}'
+        elif a.lenname:
+            name = a.lenname
         out = AV(ty='int', lenof=a.only('ty', 'axes', 'idx', 'geo', 'cols', 'maybe_empty', 'symlen', 'store', 'prov'))
         if name:
             out = out.w(mono=Mono.atom(name))
